@@ -96,6 +96,36 @@ def pool(rng):
         P.append(gen.program(rng, 2, {"k": 2}))
     return P
 
+SOLO = r"""
+import sys, json, io
+sys.path.insert(0, sys.argv[1]); sys.path.insert(0, sys.argv[2])
+import os
+os.environ["CONSTRUCT_VERIF_TRACE"] = "1"
+from cvh import ast as A, values as V
+job = json.load(sys.stdin)
+out = []
+for prog, op, data in job:
+    con = A.realize(prog)
+    try:
+        if op == "parse":
+            st = io.BytesIO(bytes(data)); val = con.parse_stream(st)
+            out.append({"ok": True, "v": V.enc(val), "err": "", "p": st.tell(), "path": []})
+        else:
+            st = io.BytesIO(); con.build_stream(bytes(data), st)
+            out.append({"ok": True, "v": V.VBytes(st.getvalue()), "err": "", "p": st.tell(), "path": []})
+    except Exception as e:
+        out.append({"ok": False, "v": V.VNone(), "err": type(e).__name__, "p": 0, "path": []})
+    break       # one call per process: nothing has run before it
+print(json.dumps(out))
+"""
+def solo(prog, op, data):
+    "the same call as the only call of a fresh interpreter process: what the result is when there is no history at all"
+    import json, subprocess
+    from ..check import REPO
+    harness = os.path.dirname(os.path.dirname(os.path.dirname(os.path.abspath(__file__))))
+    p = subprocess.run([sys.executable, "-c", SOLO, REPO, harness], input=json.dumps([[prog, op, list(data)]]), capture_output=True, text=True, timeout=120)
+    return json.loads(p.stdout.strip().splitlines()[-1])[0]
+
 def run(ctx):
     import construct as cs
     rng = ctx.rng
@@ -170,6 +200,12 @@ def run(ctx):
                     i2, _ = camp.build(rp[q], rc[q], data, b"", {})
                     if q == 0:
                         camp.sh.session("C17.pure", [first[0], i1]); camp.sh.session("C17.pure", [first[1], i2])
+                    if rnd == 0:
+                        # ... and equals what the call returns as the only call of a fresh process
+                        for idx, op in ((i1, "parse"), (i2, "build")):
+                            res = solo(rp[q], op, data)
+                            j = camp.sh.add(opq("solo"), {"op": op, "events": [], "res": res}, {}, data if op == "parse" else b"", 0, None, None, "solo")
+                            camp.sh.session("C17.entry", [j, idx])
                 nt += 1
             # ---- a build that fails after its payload was partly written, between two identical ones (length-prefixed regions keep no buffer)
             pp = A.Prefixed(A.Alias("Byte"), A.Struct(A.Renamed("a", A.Alias("Byte")), A.Renamed("b", A.Alias("Int16ub"))))
